@@ -287,6 +287,54 @@ def r15_4(ctx, counts) -> RuleResult:
     return res
 
 
+def r15_6(ctx, counts) -> RuleResult:
+    """op:same-key vs Python dict equality: booleans are not the numbers 1 and 0"""
+    model: Model = ctx.model
+    res = RuleResult(
+        'R15.6', 'MAP-KEY-DICT-SEMANTICS',
+        'XPathMap stores its entries in a Python dict, whose key equality differs from '
+        'op:same-key in two ways: NaN is not equal to itself (the builders keep it under a '
+        'separate slot — R15.4) and True/False are equal to, and hash like, 1/0, while '
+        'same-key(true(), 1) is false. Every function of XPathMap that stores an atomized key '
+        'into the dict (`_map[k] = …` with k a bare name) therefore tests `isinstance(k, bool)` '
+        '(or passes the key through a normalising call) as it does for NaN. Without it '
+        'map{true():1, 1:2} raises XQDY0137 and map:get(map{1:"a"}, true()) returns "a".')
+    cls = model.find_class('XPathMap')
+    n = 0
+    for name, f in sorted(cls.methods.items()):
+        stores = [x for x in walk_local(f.node) if isinstance(x, (ast.Assign, ast.AugAssign))
+                  for t in (x.targets if isinstance(x, ast.Assign) else [x.target])
+                  if isinstance(t, ast.Subscript) and dotted(t.value).split('.')[-1] == '_map'
+                  and isinstance(t.slice, ast.Name)]
+        if not stores:
+            continue
+        n += 1
+        keys = {x.targets[0].slice.id for x in stores          # type: ignore[union-attr]
+                if isinstance(x, ast.Assign) and isinstance(x.targets[0], ast.Subscript)}
+        nan = any(isinstance(c, ast.Call) and dotted(c.func) in ('math.isnan', 'isnan')
+                  for c in walk_local(f.node))
+        boolean = any(isinstance(c, ast.Call) and dotted(c.func) == 'isinstance' and len(c.args) == 2
+                      and isinstance(c.args[0], ast.Name) and c.args[0].id in keys
+                      and 'bool' in {dotted(e) for e in (c.args[1].elts if isinstance(
+                          c.args[1], ast.Tuple) else [c.args[1]])}
+                      for c in walk_local(f.node))
+        res.instances.append(f'{f.key}: stores keys {sorted(keys)} into the dict; NaN case='
+                             f'{nan} boolean case={boolean}')
+        if boolean:
+            res.ok()
+        else:
+            res.fail(finding('R15.6', f, stores[0], 'boolean keys share the slots of 1 and 0',
+                             f'{f.name} stores the atomized key into a Python dict '
+                             f'(`{stmt_text(stores[0])[:40]}`) without separating booleans: '
+                             f'True == 1 and hash(True) == hash(1), so map{{true():1, 1:2}} '
+                             f'raises XQDY0137 and map:get(map{{1:"a"}}, true()) returns "a" '
+                             f'although same-key(true(), 1) is false'))
+    counts['map_key_store_functions'] = n
+    if n < 2:
+        raise AnalysisError(f'only {n} functions of XPathMap store keys into the dict')
+    return res
+
+
 def run(ctx) -> dict:
     counts: dict[str, int] = {}
     results = [r15_1(ctx, counts), r15_2(ctx, counts)]
@@ -299,6 +347,7 @@ def run(ctx) -> dict:
         raise AnalysisError(f'R15.3: only {len(r3.instances)} functions with one-shot bindings')
     results.append(r3)
     results.append(r15_4(ctx, counts))
+    results.append(r15_6(ctx, counts))
     return {
         'results': results, 'counts': counts,
         'explanation':
